@@ -88,6 +88,9 @@ func runC15(c *CaseCtx) (res CaseResult) {
 	if c.Idx%40 == 7 {
 		return runC15TypedNil(c, r)
 	}
+	if c.Idx%40 == 23 {
+		return runC15ArgSnapshot(c, r)
+	}
 	det := map[string]interface{}{}
 	defer func() {
 		if p := recover(); p != nil {
